@@ -78,8 +78,8 @@ var msmThresholds = []int{49, 129, 321, 769, 1793, 4097, 9217, 20481}
 func genC09(t *rapid.T) c09Case {
 	c := c09Case{
 		API:        rapid.SampledFrom([]string{"element", "element", "bandersnatch", "multiscalar"}).Draw(t, "api"),
-		ScalarMode: rapid.SampledFrom([]string{"uniform", "uniform", "zero", "small", "mixsmall15", "mixsmall5", "recipes", "recipes", "limbs", "onehot", "word", "word"}).Draw(t, "scalars"),
-		PointMode:  rapid.SampledFrom([]string{"pool", "pool", "pool", "dup", "identity", "rep", "tieZ"}).Draw(t, "points"),
+		ScalarMode: rapid.SampledFrom([]string{"uniform", "uniform", "zero", "small", "mixsmall15", "mixsmall5", "recipes", "recipes", "limbs", "onehot", "word", "word", "paired_same", "paired_neg"}).Draw(t, "scalars"),
+		PointMode:  rapid.SampledFrom([]string{"pool", "pool", "pool", "dup", "identity", "rep", "tieZ", "negpairs", "samepairs"}).Draw(t, "points"),
 		Seed:       rapid.Uint64().Draw(t, "seed"),
 		Mont:       rapid.Bool().Draw(t, "mont"),
 		Noise:      noiseSeedFrom(rapid.Uint64().Draw(t, "noise")),
@@ -117,6 +117,13 @@ func genC09(t *rapid.T) c09Case {
 func (c c09Case) msmScalar(j int) *big.Int {
 	h := hx.Expand(c.Seed, "msmsc", j)
 	switch c.ScalarMode {
+	case "paired_same", "paired_neg": // neighbours share their scalar (or its negative): with paired points their terms cancel or double
+		v := hx.Expand(c.Seed, "msmsc", j&^1)
+		v.Mod(v, ref.R)
+		if c.ScalarMode == "paired_neg" && j&1 == 1 {
+			return ref.FrNeg(v)
+		}
+		return v
 	case "zero":
 		return new(big.Int)
 	case "word": // fits one 64-bit word, mostly with the top bits set
@@ -167,6 +174,9 @@ func (c c09Case) msmScalar(j int) *big.Int {
 func (c c09Case) pointIndex(j int) int {
 	if c.PointMode == "dup" {
 		return int(c.Seed % msmPoolSize)
+	}
+	if c.PointMode == "negpairs" || c.PointMode == "samepairs" {
+		j &^= 1 // neighbours hold the same point (negpairs: the odd one negated)
 	}
 	return int(hx.Expand(c.Seed, "msmpt", j).Uint64() % msmPoolSize)
 }
@@ -259,6 +269,14 @@ func evalC09(c c09Case, rec *hx.Rec) error {
 			}
 			elems[j] = msmElems[idx]
 			affs[j] = msmAff[idx]
+			if c.PointMode == "negpairs" && j&1 == 1 {
+				elems[j] = hx.ToImpl(hx.G.Neg(hx.FromImpl(&msmElems[idx])))
+				affs[j].X.Neg(&affs[j].X)
+				if j < ns {
+					sum.Sub(sum, new(big.Int).Mul(s, msmLogs[idx]))
+				}
+				continue
+			}
 			if c.PointMode == "rep" || c.PointMode == "tieZ" {
 				elems[j] = hx.ToImpl(hx.Rep(hx.FromImpl(&msmElems[idx]), 1+j%3, c.Seed+uint64(j)))
 			}
